@@ -361,6 +361,7 @@ type lcWorld struct {
 	svPtr    string
 	prPtr    string
 	cbClosed bool
+	flStable int
 	unflushed []bool // the user has written data into the stream's BufferWriter that no Flush has taken yet
 }
 
@@ -693,6 +694,21 @@ func (w *lcWorld) observe() *lcExp {
 	copy(x.Rd, w.rdRes)
 	x.Fl, x.Acc, x.LastOpen, x.LastSend = w.flRes, w.accRes, w.lastOpen, w.lastSend
 	w.mu.Unlock()
+	if x.Fl == "parked" && x.Shutdown == 0 {
+		// "parked" only once the send loop really waits for the socket to drain: it holds `writing`, the socket is not
+		// writable and the wake-up token has been consumed (otherwise the caller is still copying / still writing chunks)
+		hh := s.eventConn.(*connEventHandler)
+		pfd := []lcunix.PollFd{{Fd: int32(hh.fd), Events: lcunix.POLLOUT}}
+		n, _ := lcunix.Poll(pfd, 0)
+		writable := n > 0 && pfd[0].Revents&lcunix.POLLOUT != 0
+		if atomic.LoadUint32(&s.writing) == 0 || writable || len(hh.onWriteReadyCh) != 0 {
+			x.Fl = "starting"
+			w.flStable = 0
+		} else if w.flStable < 3 {
+			w.flStable++
+			x.Fl = "starting"
+		}
+	}
 	// buffer manager reference of this end
 	peerDone := int32(0)
 	if w.pr != nil {
@@ -1075,7 +1091,13 @@ func (w *lcWorld) replayManual() {
 				for len(w.outstanding()) > 0 && time.Now().Before(deadline) {
 					time.Sleep(time.Millisecond)
 				}
+				for d2 := time.Now().Add(lcWait); w.observe().Fl == "starting" && time.Now().Before(d2); {
+					time.Sleep(time.Millisecond)
+				}
 				time.Sleep(30 * time.Millisecond)
+				if os.Getenv("VS_LC_DEBUG") != "" {
+					fmt.Printf("DEBUG after step %d %s: fl=%s writing=%d gor=%v\n", i, st.A, w.observe().Fl, atomic.LoadUint32(&w.sv.writing), lcGoroutinesOf([]string{w.svPtr}))
+				}
 				w.checkPanics(i)
 			}
 			continue
@@ -1435,6 +1457,11 @@ func (w *lcWorld) census(step int) {
 		}
 		left = lcCensus(w.tag, w.inodes)
 		gor = lcGoroutinesOf(ptrs)
+		if os.Getenv("VS_LC_DEBUG") != "" {
+			buf := make([]byte, 1<<20)
+			buf = buf[:runtime.Stack(buf, true)]
+			fmt.Printf("DEBUG census %s ptrs %v left %v gor %v\n%s\n", w.tag, ptrs, left, gor, buf)
+		}
 		if len(left) == 0 && len(gor) == 0 {
 			return
 		}
